@@ -701,6 +701,7 @@ func (c *Cluster) execMulti(sc *Conn, req *wire.Request, m *pb.MultiRequest, cel
 	resp := &pb.MultiResponse{}
 	var outCells []byte
 	holdKey := ""
+	junk := false
 	for _, rs := range all {
 		rar := &pb.RegionActionResult{}
 		if exc := rs.exc; exc != nil {
@@ -735,6 +736,9 @@ func (c *Cluster) execMulti(sc *Conn, req *wire.Request, m *pb.MultiRequest, cel
 			}
 			if p.out != nil && p.out.Kind == "hold" {
 				holdKey = p.e.Marker
+			}
+			if p.out != nil && p.out.Kind == "junk" {
+				junk = true
 			}
 			p.e.Executed, p.e.Result = true, "ok"
 			c.logExecLocked(p.e)
@@ -777,6 +781,11 @@ func (c *Cluster) execMulti(sc *Conn, req *wire.Request, m *pb.MultiRequest, cel
 			outCells = append(outCells, roeCells[i]...)
 		}
 		resp.RegionActionResult = append(resp.RegionActionResult, rar)
+	}
+	if junk && len(outCells) > 0 {
+		// a sound cellblock followed by bytes that belong to nothing (the client has to refuse the response)
+		outCells = append(outCells, 0, 0, 0, 1, 0xde, 0xad)
+		c.JunkSent++
 	}
 	return &Reply{Msg: resp, CellBlock: outCells, HoldKey: holdKey}
 }
